@@ -15,6 +15,7 @@ import (
 	"math"
 	"strconv"
 	"strings"
+	"syscall"
 
 	"github.com/Tnze/go-mc/nbt"
 	pk "github.com/Tnze/go-mc/net/packet"
@@ -1393,6 +1394,10 @@ func packets(o *hx.Out, r *hx.Rng, all []Ty) {
 }
 
 func main() {
+	// a broken implementation can misread a length and try to allocate gigabytes: die early (the check
+	// reports a harness that does not finish) instead of exhausting the machine
+	lim := syscall.Rlimit{Cur: 4 << 30, Max: 4 << 30}
+	_ = syscall.Setrlimit(syscall.RLIMIT_AS, &lim)
 	o := hx.Open()
 	defer o.Close()
 	r := o.R
